@@ -56,7 +56,7 @@ def summary (g : Game) : String :=
   s!"ok v={g.start.version.major}.{g.start.version.minor}.{g.start.version.patch} ids={f.id} ports={ports} start={f.start.map (·.length)}/{f.start.map colsSum} end={(endRows g).map (·.length)}/{(endRows g).map colsSum} off={f.itemOff} item={f.item.map (·.length)}/{f.item.map colsSum} gecko={g.gecko.map fun c => (c.actualSize, c.bytes.length)} dbl={g.doubleGameEnd} end?={g.fend.isSome} meta?={g.metadata.isSome} hashed={g.hashedLen}"
 
 /-- one entry of the abstract `.slpp` archive as the harness describes it (externals already applied) -/
-def parseEntry (tok : String) : Option (PEntry String) :=
+def parseEntry (tok : String) : Option (PEntry String String) :=
   match tok.splitOn ":" with
   | ["ot"] => some .other
   | ["pj", "err"] => some (.peppiJson (.err "json"))
